@@ -152,3 +152,71 @@ def oracle_c14(eng, out, st):
     eng.ensure_model(st)
     opname = OPNAMES.get((eng.params.get('gen', 2), eng.params.get('op')), str(eng.params.get('op')))
     return ('bug', E.Bug('assert', 'C14[%s]: %s; failed statement: %s; statements: %s' % (opname, msg, q.failed[1][:60], steps[:400]), st.model))
+
+
+# ---------------------------------------------------------------------------------------------------------------
+# schema 1.x
+import struct as _struct
+def _dle(x): return list(_struct.pack('<d', x))
+def _dbe(x): return list(_struct.pack('>d', x))
+
+def v1_blob(st, colname):
+    """encoding of a valid 1.x performance-data struct (8 cue / loop slots, two 2-marker grids, 2 waveform entries)"""
+    c = colname.lower()
+    if c == 'trackdata': return framed(sym(st, 'trackData', 28))
+    if c == 'highresolutionwaveformdata': return framed(be(2, 8) + be(2, 8) + sym(st, 'hr', 8 + 12 + 6))
+    if c == 'overviewwaveformdata': return framed(be(2, 8) + be(2, 8) + sym(st, 'ov', 8 + 6 + 3))
+    if c == 'beatdata':
+        p = _dbe(44100.0) + _dbe(1000000.0) + [1]
+        for g in range(2):
+            p += be(2, 8) + _dle(0.0) + le(0, 8) + le(4, 4) + le(0, 4) + _dle(88200.0) + le(4, 8) + le(0, 4) + le(0, 4)     # sorted, consistent grid
+        return framed(p + [0] * 9)
+    if c == 'quickcues':
+        p = be(8, 8)
+        for i in range(8): p += [1] + sym(st, 'cue%d' % i, 1 + 8 + 4)
+        return framed(p + _dbe(10.0) + [0] + _dbe(10.0))
+    if c == 'loops':
+        p = le(8, 8)
+        for i in range(8): p += [1] + sym(st, 'loop%d' % i, 1 + 16) + [1, 1] + sym(st, 'loopcol%d' % i, 4)
+        return p
+    return None
+
+V1_TEXT = {'path', 'filename', 'text', 'uuidofexternaldatabase', 'uri', 'title', 'uuid', 'name', 'cratepath'}
+V1_BLOBS = {'trackdata', 'highresolutionwaveformdata', 'overviewwaveformdata', 'beatdata', 'quickcues', 'loops'}
+OPNAMES.update({(1, k): 'v1 ' + v for k, v in list(OBSERVERS_V2.items()) + list(MUTATORS_V2.items())})
+
+def install_abstract_v1(eng, fail='none', rows_mode='one', null='never', row_exists=True, sane_ints=True, concrete_blobs=True):
+    CONCRETE_BLOBS[0] = concrete_blobs
+    def name_of(s_, col):
+        cols = select_columns(s_.sql)
+        return (cols[col] if col < len(cols) else '').lower()
+    def blob(st, s_, col): return v1_blob(st, name_of(s_, col))
+    def coltype(st, s_, col):
+        n = name_of(s_, col)
+        if n in V1_BLOBS: return 'blob'
+        if n in V1_TEXT: return 'text'
+        if n == 'bpmanalyzed': return 'real'
+        return 'int'
+    def rows(st, s_):
+        if 'COUNT(' in s_.sql.upper(): return 1
+        if 'FROM Information' in s_.sql or 'FROM music.Information' in s_.sql: return 1
+        # recursive walks (crate paths, descendants) re-issue the same statement once per level: the model's forest is finite -
+        # after three levels the statement answers no row
+        seen = st.env.setdefault('sql_seen', {}); seen[s_.sql] = seen.get(s_.sql, 0) + 1
+        if seen[s_.sql] > 3: return 0
+        if rows_mode == 'one': return 1
+        return None
+    def column(st, s_, col, want):
+        n = name_of(s_, col)
+        if want == 'int' and sane_ints:
+            lo = 1 if n == 'id' or n.endswith('id') else 0
+            v = st.new_input('col_' + (n or str(col)), 64, 'env'); st.var_ranges = dict(st.var_ranges); st.var_ranges[v.get_id()] = (lo, 1 << 31)
+            st.pc.append(z3.And(z3.UGE(v, lo), z3.ULE(v, 1 << 31)))
+            return ('int', v)
+        return None
+    cfg = {'fail': fail, 'blob': blob, 'coltype': coltype, 'rows': rows, 'max_rows': 2 if rows_mode == 'one' else 1, 'null': null, 'column': column, 'row_exists': row_exists}
+    models_sqlite.install(eng, cfg)
+    models_zlib.install_identity(eng)
+    def op_done(st, a):
+        st.env['op_threw'] = a[0]
+    eng.models['verif_op_done'] = op_done
